@@ -92,12 +92,14 @@ CLAIMED = {
     "C10": dict(
         text=("Proof (Coq) for the size-regular optimizers (69, pinned; regenerated by T-algo): the regenerated _init_population yields exactly "
               "population_size agents in every mode (pool = any permutation), every population write with a known size effect preserves a "
-              "population of P agents, hence every generation of every run has exactly P agents. The 12 irregular optimizers have no machine-checked "
-              "size model: they are pinned by the fingerprint of their population-affecting statements and checked by search only at 1x..3x sizes "
-              "(declared partial for them); the three variable-by-design optimizers are checked for non-empty and <= P."),
-        note=TB + " step_conforms (the step edits the population only through the writes T-algo lists) is a hypothesis; irregular optimizers: search only.",
-        technique="Coq proof over regenerated population-write skeletons; fingerprint pin + search for irregular optimizers",
-        design="§7 C10"),
+              "population of P agents, hence every generation of every run has exactly P agents. The 12 irregular optimizers have EXECUTABLE HAND size models "
+              "(SizeModels.v: slices, groups with/without residual, trims) with a theorem each - under a decidable side condition implied by the validators or equal to "
+              "the documented-size condition (group count divides P, even P for the genetic algorithm) every generation has exactly P agents, and the loss outside it is "
+              "the residual - tied to the code by the fingerprint of their population-affecting statements and by vm_compute correspondence of the recorded generation "
+              "sizes of real runs (multiples and non-multiples, perturbed parameters). The three variable-by-design optimizers are checked for non-empty and <= P."),
+        note=TB + " step_conforms (the step edits the population only through the writes T-algo lists) is a hypothesis; the irregular models are hand-written, not regenerated.",
+        technique="Coq proof over regenerated population-write skeletons; executable hand size models (theorem + vm_compute correspondence + fingerprint) for irregular optimizers; size search",
+        design="§7 C10, §0.2"),
     "C15": dict(
         text=("Proof (Coq): (i) an agent object built by a conforming optimizer is never altered afterwards (the heap of the provenance machine only "
               "grows), and a snapshot consists of those objects or of sign-restored copies (regenerated); (ii) the REGENERATED trend utilities return, per "
@@ -111,14 +113,15 @@ CLAIMED = {
         text=("Proof (Coq): for every optimizer in the pinned structurally-elitist set (54; the set is recomputed from the source on every run and must "
               "contain the pinned one) and every step that edits the population only through its listed writes, each generation contains an agent at "
               "least as good as every agent of every earlier generation, on internal costs and - via the sign restoration - in the task's direction for "
-              "min and max alike; hence best_solution is the best ever recorded. Uses the regenerated greedy/trim helpers (C16)."),
+              "min and max alike; hence best_solution is the best ever recorded. Uses the regenerated greedy/trim helpers (C16). 17 further optimizers, elitist by observation "
+              "only (monotone in >= 950 runs each on the pinned tree), are covered by SEARCH ONLY, pinned by the hash of their source; fresh and reused instances."),
         note=TB + " Classification is conservative (syntactic); step_conforms is a hypothesis; no NaN costs; population_size >= 1.",
         technique="Coq proof (keeps_best for each elitist population write, induction over writes and cycles) + search over the elitist set",
         design="§7 C17"),
     "C07": dict(
         text=("Proof (Coq): the regenerated optimize() schema seeds numpy's stream from the task before anything draws and Task.seed is an integer field; "
               "for every exported optimizer (skeleton facts regenerated by T-algo: no entropy source other than the seeded stream, transitively through "
-              "helpers.py; no field read before it is assigned in the run) the dependency theorem gives: the result of a serial call is a function of (task incl. "
+              "helpers.py; no field read before it is assigned in the run - per-run base fields DERIVED from the real optimize(); no set iterated in hash order anywhere in the package) the dependency theorem gives: the result of a serial call is a function of (task incl. "
               "seed, configuration, arguments) only - not of the stream's earlier state nor of any other entropy - for every numeric kernel. Tightness lemma: an "
               "entropy read admits two differing runs. Search: seeded reruns across processes after unrelated draws, incl. fully tied populations."),
         note=TB + " np.random.seed(int) determines the subsequent stream (oracle law); serial mode; the abstract call machine has five locations (inputs, numpy stream, other entropy, instance state, result).",
@@ -162,10 +165,11 @@ CLAIMED = {
               "getitem i = i-th iterated point for every i < len and IndexError beyond, the iterated points are exactly the union of the Cartesian "
               "products of the sub-grids; the evaluation plan of execute() is grid x trials with each pair exactly once; for every score table "
               "(ties, equal means with different spreads, NaN spreads for one trial) and both directions the selected row has an optimal mean "
-              "(model of pandas rank(average) on mean and std, dense rank of the pair, first row of minimal rank). Tie: ParameterGrid and the "
+              "(model of pandas rank(average) on mean and std, dense rank of the pair, first row of minimal rank); set_config_parameters of all 84 optimizers REPLACES the "
+              "configuration (regenerated fact), so a point is evaluated with exactly its parameters. Tie: ParameterGrid and the "
               "selection model are hand-written; the statements of execute()/resolve() they describe are pinned by shape extraction (fail closed) "
               "and the models are compared by vm_compute with the real ParameterGrid (exhaustive 0-3 keys x 1-3 values, dict / list of dicts) and "
-              "with the real pandas selection on generated tables; execute()/resolve() run for real with a table-driven optimizer."),
+              "with the real pandas selection on generated tables; execute()/resolve() run for real with a table-driven optimizer and with real optimizers on heterogeneous grids."),
         note=TB + " pandas mean/std values are taken from the real DataFrame (rank semantics modelled, differentially checked); means not NaN; "
                   "process pool of execute() exercised, not modelled; the tie to hypertuner.py is shape-pinning + correspondence, not translation.",
         technique="Coq proof on hand model (grid product/divmod induction; rank-selection optimality) + shape pin + vm_compute correspondence + real execute() runs",
@@ -174,10 +178,12 @@ CLAIMED = {
         text=("Proof (Coq, Multi.v): for all n, m the broadcasting of `modes` (branch order of __check_input__ as in the code) designates for each "
               "(algorithm, task) pair the documented mode in each of the four shapes and serial for None; other lengths and unknown modes are rejected "
               "at construction; the execution plan contains every (algorithm, task, trial 1..k) exactly once with that mode (n*m*k evaluations). "
-              "Ambiguous lengths (n = m, n or m = 1) resolve in the code's branch order, stated as hypotheses of the shape theorems. Tie: Multitask's "
-              "methods pinned by shape extraction (fail closed); correspondence by vm_compute of check_input/get_mode tables against the real "
+              "Ambiguous lengths (n = m, n or m = 1) resolve in the code's branch order, stated as hypotheses of the shape theorems. Tie: __check_input__, __check_modes__ and "
+              "__get_mode__ are REGENERATED by T-core and bridged to the model (end-to-end theorem on the regenerated methods); execute/__parallelize__/__run__/export and "
+              "enums.MetaEnum/ModeSolver pinned by shape extraction (fail closed); correspondence by vm_compute of check_input/get_mode tables against the real "
               "constructor for n, m in 1..3, every shape and mode value; execute() and export_results run for real with reporting optimizers "
-              "(modes, workers, tasks seen; table shapes; one file per algorithm under <save_path>/<name>/ for the three formats)."),
+              "(modes, workers, tasks seen; table shapes; one file per algorithm under <save_path>/<name>/ for the three formats), and with a real optimizer checking "
+              "WHERE the evaluations of a process / thread / serial pair really ran."),
         note=TB + " Process pool and file system exercised, not modelled; tie is shape-pinning + correspondence, not translation.",
         technique="Coq proof on hand model (list/nth arithmetic) + shape pin + vm_compute correspondence + real execute()/export runs",
         design="§7 C20"),
